@@ -816,6 +816,18 @@ inductive Outcome where
   | timeout
   deriving Repr, Inhabited
 
+/-- How a run is reported to the host: normal completion, an exception no handler encloses as
+the fatal error `UncaughtThrow` with the thrown message and position, a fatal error with its
+own kind. -/
+def outcomeOf : Except Ctl Val × St → Outcome
+  | (.ok _, s) => .ok s.out s.trig
+  | (.error (.throw msg sp), s) => .fatal "UncaughtThrow" msg sp s.out s.trig
+  | (.error (.fatal k msg sp), s) => .fatal k msg sp s.out s.trig
+  | (.error (.unsupported w), _) => .unsupported w
+  | (.error .timeout, _) => .timeout
+  | (.error (.ret _), s) => .ok s.out s.trig
+  | (.error .brk, _) | (.error .cont, _) => .unsupported "loop exit at top level"
+
 /-- Initialise the globals of every module (singletons from their zero values — the testing
 host provides none), then run `main` of the entry module. -/
 def runProgram (cfg : Cfg) (fuel : Nat) (entry : String := "main") : Outcome :=
@@ -838,13 +850,6 @@ def runProgram (cfg : Cfg) (fuel : Nat) (entry : String := "main") : Outcome :=
     match findFn cfg.prog "main" entry with
     | some fd => applyFn cfg fuel fd.sp (.fn "main" entry) []
     | none => throwCtl (.unsupported "no entry function")
-  match main {} with
-  | (.ok _, s) => .ok s.out s.trig
-  | (.error (.throw msg sp), s) => .fatal "UncaughtThrow" msg sp s.out s.trig
-  | (.error (.fatal k msg sp), s) => .fatal k msg sp s.out s.trig
-  | (.error (.unsupported w), _) => .unsupported w
-  | (.error .timeout, _) => .timeout
-  | (.error (.ret _), s) => .ok s.out s.trig
-  | (.error .brk, _) | (.error .cont, _) => .unsupported "loop exit at top level"
+  outcomeOf (main {})
 
 end Hms.Core
